@@ -16,7 +16,7 @@ from .. import observe as ob
 from .c03 import canon_u, adversarial, keep_o_order
 
 PROP = "C13"
-RUNS = {"quick": 20000, "thorough": 1500000}
+RUNS = {"quick": 20000, "thorough": 700000}
 WALL = {"quick": 280, "thorough": 3500}
 RULE = ("one run = one document of a class (pure gfa1 / pure gfa2 / neutral / mixed) delivered in k "
         "orders with flush placements and version/dialect parameters; distinct = distinct (document, "
